@@ -44,8 +44,8 @@ func NewStrictBackend() *StrictBackend {
 	ipt.LinkSets(ips)
 	w := &Watch{}
 	f := &FaultIPS{Interface: &WatchIPS{Interface: ips, ips: ips, w: w}}
-	return &StrictBackend{Backend: Backend{Ipt: &WatchIPT{Interface: ipt, ipt: ipt, ips: ips, w: w}, Ips: f}, Ipt: ipt, Ips: ips,
-		Fault: f, Watch: w}
+	return &StrictBackend{Backend: Backend{Ipt: &LimitIPT{Interface: &WatchIPT{Interface: ipt, ipt: ipt, ips: ips, w: w}, W: w}, Ips: f},
+		Ipt: ipt, Ips: ips, Fault: f, Watch: w}
 }
 
 type WorldDef struct {
@@ -163,7 +163,7 @@ type drvExpect struct {
 func NewC15Run(e *hx.Env, rep *hx.Report, prop, name string) *C15Run {
 	r := &C15Run{e: e, rep: rep, prop: prop, name: name, worlds: map[string]*WorldDef{}, Sigs: map[string]int{}}
 	r.sb = NewStrictBackend()
-	r.m = NewManager(r.sb.Backend, LocalNode, nil)
+	r.m = NewFreshManager(r.sb.Backend, LocalNode)
 	r.drv = []string{"reset"}
 	r.foreign = r.takeDump().Foreign().Canon()
 	return r
@@ -237,6 +237,11 @@ func (r *C15Run) newFailures() (submitted []string, all []nf.Event) {
 		}
 	}
 	r.failSeen = len(fs)
+	for _, lv := range r.sb.Watch.TakeLimits() {
+		submitted = append(submitted, lv.Op+":"+lv.Class)
+		r.violate("multiport-more-than-15-ports", "a rule with more than 15 ports of one protocol is refused by iptables "+
+			"(too many ports specified) and the whole batch with it: "+clip(lv.Detail))
+	}
 	is := r.sb.Ips.Failures()
 	for _, ev := range is[r.ipsSeen:] {
 		all = append(all, ev)
@@ -351,7 +356,7 @@ func (r *C15Run) Exec(line string) error {
 		r.sb.Fault.Arm(match, n)
 		r.rep.Hit("op:fault:ipset-create")
 	case "restart":
-		r.m = NewManager(r.sb.Backend, LocalNode, nil)
+		r.m = NewFreshManager(r.sb.Backend, LocalNode)
 	case "fullsync":
 		if len(w) != 2 {
 			return fmt.Errorf("bad line %q", line)
@@ -417,6 +422,9 @@ func (r *C15Run) Exec(line string) error {
 				}
 			}
 			return nil
+		}
+		if w[1] == "addpol" || ((w[1] == "updpol" || w[1] == "delpol") && len(wd.PS) > 0) {
+			r.m.SeenPolicy = true // AddPolicy / syncNetworkPolices start the pod informer factory
 		}
 		prior := r.takeDump()
 		okRun := true
@@ -497,7 +505,7 @@ func (r *C15Run) check(w string) error {
 	got := r.takeDump()
 	// ---- clause 1: exactly what a sync from an EMPTY kernel installs (independent of the Lean model)
 	fresh := NewStrictBackend()
-	fm := NewManager(fresh.Backend, LocalNode, nil)
+	fm := NewFreshManager(fresh.Backend, LocalNode)
 	fm.World.Set(&wd.C, wd.PS)
 	fm.FullSync()
 	SetNodeName(LocalNode)
@@ -863,7 +871,11 @@ func mutateWorld(rg *rand.Rand, a *WorldDef) *WorldDef {
 	}
 	fresh, _ := GenCase(rg, false)
 	_ = fresh
+	dropAll := rg.Intn(8) == 0 // every policy is gone (with `restart`: the fresh process sees no NetworkPolicy at all)
 	for _, p := range a.PS {
+		if dropAll {
+			continue
+		}
 		switch n := rg.Intn(100); {
 		case n < 25: // policy deleted
 			continue
@@ -880,7 +892,7 @@ func mutateWorld(rg *rand.Rand, a *WorldDef) *WorldDef {
 		}
 		b.PS = append(b.PS, p)
 	}
-	for n := rg.Intn(3); n > 0 && len(b.PS) < 4; n-- {
+	for n := rg.Intn(3); n > 0 && len(b.PS) < 4 && !dropAll; n-- {
 		b.PS = append(b.PS, genPolicyLike(rg, a, pick(rg, a.C.NSs).Name, fmt.Sprintf("new%d", len(b.PS))))
 	}
 	return b
@@ -919,7 +931,7 @@ func genRuleC15(rg *rand.Rand) Rule {
 	for {
 		r := genRule(rg, false)
 		keys := map[string]string{}
-		ok := true
+		ok := !OverLimit([]NetPol{{Types: "IE", Ingress: []Rule{{Peers: []Peer{{Kind: "ns"}}, Ports: r.Ports}}}})
 		for _, p := range r.Peers {
 			if p.Kind != "ip" {
 				continue
